@@ -6,60 +6,60 @@ Import ListNotations.
 From GMQ Require Import Broker.Model Proofs.BrokerFrames Proofs.BrokerTags.
 Open Scope N_scope.
 
-Definition chinv (ch : channel) : Prop :=
+Definition chinv (h : N) (ch : channel) : Prop :=
   NoDup (map u_tag (ch_unacked ch)) /\
   (forall u, In u (ch_unacked ch) -> u_tag u <= ch_dtag ch).
 
-Definition allch (P : channel -> Prop) (s : state) : Prop :=
-  forall c cn h ch, In (c, cn) (conns s) -> In (h, ch) (cn_chans cn) -> P ch.
+Definition allch (P : N -> N -> channel -> Prop) (s : state) : Prop :=
+  forall c h ch, get_chan s c h = Some ch -> P c h ch.
 
-Lemma allch_get (P : channel -> Prop) s c h ch : allch P s -> get_chan s c h = Some ch -> P ch.
+Lemma allch_get (P : N -> N -> channel -> Prop) s c h ch : allch P s -> get_chan s c h = Some ch -> P c h ch.
+Proof. intros H Hg. apply H; auto. Qed.
+
+Lemma allch_same_conns (P : N -> N -> channel -> Prop) s s' : conns s' = conns s -> allch P s -> allch P s'.
+Proof. unfold allch. intros E H c h ch Hg. apply H. rewrite <- (get_chan_same_conns s s' c h E). exact Hg. Qed.
+
+Lemma allch_set_chan (P : N -> N -> channel -> Prop) s c h ch : P c h ch -> allch P s -> allch P (set_chan s c h ch).
 Proof.
-  intros H Hg. unfold get_chan, get_conn in Hg. destruct (alookup N.eqb c (conns s)) as [cn|] eqn:Ec; [|discriminate].
-  eapply H; eapply alookup_in; try apply Neqb_spec; eauto.
+  intros Hp H c' h' ch' Hg. rewrite get_chan_set_chan in Hg.
+  destruct (get_conn s c); [|apply H; auto].
+  destruct ((c' =? c) && (h' =? h)) eqn:Eb; [|apply H; auto].
+  apply andb_prop in Eb. destruct Eb as [E1 E2]. apply N.eqb_eq in E1, E2. subst. inversion Hg; subst. auto.
 Qed.
 
-Lemma allch_same_conns (P : channel -> Prop) s s' : conns s' = conns s -> allch P s -> allch P s'.
-Proof. unfold allch. intros E H. rewrite E. exact H. Qed.
-
-Lemma allch_set_chan (P : channel -> Prop) s c h ch : P ch -> allch P s -> allch P (set_chan s c h ch).
-Proof.
-  intros Hp H. unfold set_chan. destruct (get_conn s c) as [cn|] eqn:Ec; auto.
-  unfold allch. cbn. intros c' cn' h' ch' Hin1 Hin2.
-  apply in_aset in Hin1. destruct Hin1 as [E|Hin1].
-  - inversion E; subst. cbn in Hin2. apply in_aset in Hin2. destruct Hin2 as [E2|Hin2].
-    + inversion E2; subst. auto.
-    + unfold get_conn in Ec. eapply H; [eapply alookup_in; [apply Neqb_spec|exact Ec]|exact Hin2].
-  - eapply H; eauto.
-Qed.
-
-Lemma allch_upd_chan (P : channel -> Prop) s c h f : (forall ch, P ch -> P (f ch)) -> allch P s -> allch P (upd_chan s c h f).
+Lemma allch_upd_chan (P : N -> N -> channel -> Prop) s c h f : (forall ch, P c h ch -> P c h (f ch)) -> allch P s -> allch P (upd_chan s c h f).
 Proof.
   intros Hf H. unfold upd_chan. destruct (get_chan s c h) as [ch|] eqn:E; auto.
-  apply allch_set_chan; auto. apply Hf. eapply allch_get; eauto.
+  apply allch_set_chan; auto.
 Qed.
 
-Lemma allch_upd_chan_at (P : channel -> Prop) s c h f ch :
-  get_chan s c h = Some ch -> P (f ch) -> allch P s -> allch P (upd_chan s c h f).
+Lemma allch_upd_chan_at (P : N -> N -> channel -> Prop) s c h f ch :
+  get_chan s c h = Some ch -> P c h (f ch) -> allch P s -> allch P (upd_chan s c h f).
 Proof. intros Hg Hp H. unfold upd_chan. rewrite Hg. apply allch_set_chan; auto. Qed.
 
-Lemma allch_set_conn_qos (P : channel -> Prop) s c cn f :
-  get_conn s c = Some cn -> allch P s -> allch P (s <| conns := aset N.eqb c (cn <| cn_qos ::= f |>) (conns s) |>).
+Lemma get_chan_set_conn_qos s c cn f c' h' :
+  get_conn s c = Some cn ->
+  get_chan (s <| conns := aset N.eqb c (cn <| cn_qos ::= f |>) (conns s) |>) c' h' = get_chan s c' h'.
 Proof.
-  intros Ec H. unfold allch. cbn. intros c' cn' h' ch' Hin1 Hin2.
-  apply in_aset in Hin1. destruct Hin1 as [E|Hin1].
-  - inversion E; subst. cbn in Hin2. unfold get_conn in Ec. eapply H; [eapply alookup_in; [apply Neqb_spec|exact Ec]|exact Hin2].
-  - eapply H; eauto.
+  intros E. unfold get_chan, get_conn in *. cbn. rewrite (alookup_aset N.eqb Neqb_spec).
+  destruct (c' =? c) eqn:E1; [|reflexivity]. apply N.eqb_eq in E1. subst. rewrite E. reflexivity.
 Qed.
 
-Lemma allch_del_conn (P : channel -> Prop) s c : allch P s -> allch P (s <| conns := adel N.eqb c (conns s) |>).
-Proof. unfold allch. cbn. intros H c' cn' h' ch' Hin1 Hin2. apply in_adel in Hin1. eauto. Qed.
+Lemma allch_set_conn_qos (P : N -> N -> channel -> Prop) s c cn f :
+  get_conn s c = Some cn -> allch P s -> allch P (s <| conns := aset N.eqb c (cn <| cn_qos ::= f |>) (conns s) |>).
+Proof. intros Ec H c' h' ch' Hg. rewrite (get_chan_set_conn_qos _ _ _ _ _ _ Ec) in Hg. apply H; auto. Qed.
 
-Notation CI := (allch chinv).
+Lemma get_chan_del_conn s c c' h' :
+  get_chan (s <| conns := adel N.eqb c (conns s) |>) c' h' = if c' =? c then None else get_chan s c' h'.
+Proof.
+  unfold get_chan, get_conn. cbn. rewrite (alookup_adel N.eqb Neqb_spec). destruct (c' =? c); reflexivity.
+Qed.
 
-(* channel-record updates that keep the unacked list and do not lower the tag counter *)
-Lemma chinv_keep ch ch' : ch_unacked ch' = ch_unacked ch -> ch_dtag ch <= ch_dtag ch' -> chinv ch -> chinv ch'.
-Proof. unfold chinv. intros E1 E2 [A B]. rewrite E1. split; auto. intros u Hu. specialize (B u Hu). lia. Qed.
+Lemma allch_del_conn (P : N -> N -> channel -> Prop) s c : allch P s -> allch P (s <| conns := adel N.eqb c (conns s) |>).
+Proof. intros H c' h' ch' Hg. rewrite get_chan_del_conn in Hg. destruct (c' =? c); [discriminate|]. apply H; auto. Qed.
+
+Definition chinvp (c h : N) (ch : channel) : Prop := chinv h ch.
+Notation CI := (allch chinvp).
 
 Lemma NoDup_map_filter {A B} (f : A -> B) (p : A -> bool) l : NoDup (map f l) -> NoDup (map f (filter p l)).
 Proof.
@@ -69,9 +69,9 @@ Proof.
   rewrite <- Ex. apply in_map. tauto.
 Qed.
 
-Lemma chinv_del ch tag : chinv ch -> chinv (del_unacked ch tag).
+Lemma chinv_del h ch tag : chinv h ch -> chinv h (del_unacked ch tag).
 Proof.
-  unfold chinv, del_unacked. cbn. intros [A B]. split.
+  unfold chinv, del_unacked. cbn. intros (A & B). split.
   - apply NoDup_map_filter; auto.
   - intros u Hu. apply filter_In in Hu. apply B. tauto.
 Qed.
@@ -84,11 +84,527 @@ Proof.
   - apply IH; auto.
 Qed.
 
-Lemma chinv_deliver ch un : u_tag un = ch_dtag ch + 1 -> chinv ch ->
-  chinv (ch <| ch_dtag := ch_dtag ch + 1 |> <| ch_unacked ::= fun l => l ++ [un] |>).
+Lemma chinv_deliver h ch un : u_tag un = ch_dtag ch + 1 -> chinv h ch ->
+  chinv h (ch <| ch_dtag := ch_dtag ch + 1 |> <| ch_unacked ::= fun l => l ++ [un] |>).
 Proof.
-  unfold chinv. cbn. intros Et [A B]. split.
+  unfold chinv. cbn. intros Et (A & B). split.
   - rewrite map_app. cbn. apply NoDup_snoc; auto.
     intros Hx. apply in_map_iff in Hx. destruct Hx as (u & Eu & Hu). specialize (B u Hu). lia.
   - intros u Hu. apply in_app_or in Hu. destruct Hu as [Hu|[Hu|[]]]; [specialize (B u Hu); lia|subst; lia].
 Qed.
+
+Lemma chinv_consumers h ch ch' :
+  ch_unacked ch' = ch_unacked ch -> ch_status ch' = ch_status ch -> ch_dtag ch <= ch_dtag ch' ->
+  (ch_consumers ch = [] -> ch_consumers ch' = []) -> chinv h ch -> chinv h ch'.
+Proof.
+  unfold chinv. intros E1 E3 E4 E2 (A & B). rewrite E1. split; auto.
+  intros u Hu. specialize (B u Hu). lia.
+Qed.
+
+Lemma map_nil_of_nil {A B} (f : A -> B) l : l = [] -> map f l = [].
+Proof. intros ->. reflexivity. Qed.
+Lemma filter_nil_of_nil' {A} (p : A -> bool) l : l = [] -> filter p l = [].
+Proof. intros ->. reflexivity. Qed.
+
+Lemma conns_queue_ops :
+  (forall s qn u, conns (queue_push s qn u) = conns s) /\
+  (forall s qn u, conns (queue_ackmsg s qn u) = conns s) /\
+  (forall s qn u, conns (queue_requeue s qn u) = conns s) /\
+  (forall s qn tag, conns (queue_remove_consumer s qn tag) = conns s).
+Proof.
+  repeat split; intros.
+  - unfold queue_push. destruct (get_queue s qn); auto. destruct (get_msg s u) as [m|]; auto. destruct (negb _); auto.
+    cbn. destruct (_ && _); cbn; auto. destruct (m_conf m); cbn; auto. rewrite conns_upd_msg. reflexivity.
+  - unfold queue_ackmsg. destruct (get_queue s qn); auto. destruct (get_msg s u); auto. destruct (negb _); auto.
+    cbn. destruct (_ && _); auto.
+  - unfold queue_requeue. destruct (get_queue s qn); auto. destruct (negb _); auto. cbn. rewrite conns_upd_msg. reflexivity.
+  - unfold queue_remove_consumer. destruct (get_queue s qn); auto. cbn.
+    repeat match goal with |- context [if ?b then _ else _] => destruct b end; reflexivity.
+Qed.
+
+Ltac same_conns := first
+  [ eapply allch_same_conns; [first
+      [ apply conns_set_queue | apply conns_upd_queue | apply conns_upd_msg
+      | apply (proj1 conns_queue_ops) | apply (proj1 (proj2 conns_queue_ops))
+      | apply (proj1 (proj2 (proj2 conns_queue_ops))) | apply (proj2 (proj2 (proj2 conns_queue_ops))) ] | ]
+  | match goal with |- allch _ (@set _ _ _ _ _ ?s) => apply (allch_same_conns _ s); [reflexivity|] end ].
+
+(* ------------------------------------------------------------------ *)
+(* Preservation through the settlement primitives, for ANY channel predicate closed under
+   (a) updates that keep unacked list and status, do not lower the tag counter and keep an empty consumer list empty,
+   (b) removal of one unacked entry. *)
+Section Generic.
+Variable P : N -> N -> channel -> Prop.
+Hypothesis P_keep : forall c h ch ch',
+  ch_unacked ch' = ch_unacked ch -> ch_status ch' = ch_status ch -> ch_dtag ch <= ch_dtag ch' ->
+  (ch_consumers ch = [] -> ch_consumers ch' = []) -> P c h ch -> P c h ch'.
+Hypothesis P_del : forall c h ch tag, P c h ch -> P c h (del_unacked ch tag).
+
+Ltac keep_upd :=
+  first [ apply allch_upd_chan; [intros ch0 Hch0; eapply P_keep; [..|exact Hch0]; cbn;
+                                 first [reflexivity | apply N.le_refl | apply map_nil_of_nil | apply filter_nil_of_nil' | lia | auto]|]
+        | eapply allch_set_conn_qos; [eassumption|] ].
+
+Ltac sc := repeat (first [ assumption
+                         | match goal with |- allch _ (if ?b then _ else _) => destruct b end
+                         | match goal with |- allch _ (match ?x with _ => _ end) => destruct x eqn:? end
+                         | same_conns | keep_upd ]).
+
+Lemma G_wake s c h tag : allch P s -> allch P (fst (wake_consumer s c h tag)).
+Proof.
+  intros H. unfold wake_consumer. destruct (get_chan s c h) as [ch|] eqn:E; auto.
+  destruct (find_consumer ch tag) as [cm|]; auto. destruct (consume_msg cm) as [cm' b]. cbn [fst].
+  apply allch_set_chan; auto. eapply P_keep; [..|eapply allch_get; eauto]; cbn; try reflexivity.
+  apply map_nil_of_nil.
+Qed.
+
+Lemma G_queue_remove_consumer s qn tag : allch P s -> allch P (queue_remove_consumer s qn tag).
+Proof. intros H. same_conns. exact H. Qed.
+
+Lemma G_consumer_stop s c h tag : allch P s -> allch P (consumer_stop s c h tag).
+Proof.
+  intros H. unfold consumer_stop. destruct (get_chan s c h) as [ch|] eqn:E; auto.
+  destruct (find_consumer ch tag) as [cm|]; auto.
+  destruct (c_status cm); auto; apply G_queue_remove_consumer; apply allch_set_chan; auto;
+    (eapply P_keep; [..|eapply allch_get; eauto]; cbn; try reflexivity; apply map_nil_of_nil).
+Qed.
+
+Lemma G_dec_qos cfg s c h u : allch P s -> allch P (dec_qos_and_consume_next cfg s c h u).
+Proof.
+  intros H. unfold dec_qos_and_consume_next. destruct (get_chan s c h) as [ch|]; auto.
+  destruct (find_consumer ch (u_ctag u)).
+  - destruct (wake_consumer s c h (u_ctag u)) as [s1 b] eqn:Ew.
+    assert (H1 : allch P s1) by (replace s1 with (fst (wake_consumer s c h (u_ctag u))) by (rewrite Ew; reflexivity); apply G_wake; auto).
+    sc.
+  - sc.
+Qed.
+
+Lemma G_chan_ackmsg s u : allch P s -> allch P (chan_ackmsg s u).
+Proof. intros H. unfold chan_ackmsg. destruct (origin_queue s u); [same_conns; auto|sc]. Qed.
+Lemma G_chan_rejectmsg s u r : allch P s -> allch P (chan_rejectmsg s u r).
+Proof.
+  intros H. unfold chan_rejectmsg. destruct (origin_queue s u); [|sc].
+  destruct r; same_conns; auto.
+Qed.
+
+Lemma G_del_unacked s c h tag : allch P s -> allch P (upd_chan s c h (fun ch => del_unacked ch tag)).
+Proof. intros H. apply allch_upd_chan; auto. Qed.
+
+Lemma G_handle_reject cfg s c h tag mult requeue cls mth : allch P s -> allch P (fst (handle_reject cfg s c h tag mult requeue cls mth)).
+Proof.
+  intros H. unfold handle_reject. destruct (get_chan s c h) as [ch|]; auto.
+  destruct mult.
+  - cbn [fst]. apply fold_left_preserves; [intros; apply G_dec_qos; auto|].
+    apply fold_left_preserves; auto. intros s0 a H0. apply G_chan_rejectmsg. apply G_del_unacked; auto.
+  - destruct (find _ _); cbn [fst]; auto. apply G_dec_qos. apply G_chan_rejectmsg. apply G_del_unacked; auto.
+Qed.
+
+Lemma G_handle_ack cfg s c h tag mult : allch P s -> allch P (fst (handle_ack cfg s c h tag mult)).
+Proof.
+  intros H. unfold handle_ack. destruct (get_chan s c h) as [ch|]; auto.
+  destruct mult.
+  - cbn [fst]. apply fold_left_preserves; [intros; apply G_dec_qos; auto|].
+    apply fold_left_preserves; auto. intros s0 a H0. apply G_chan_ackmsg. apply G_del_unacked; auto.
+  - destruct (find _ _); cbn [fst]; auto. apply G_dec_qos. apply G_chan_ackmsg. apply G_del_unacked; auto.
+Qed.
+End Generic.
+
+(* the two instances *)
+Lemma chinvp_keep : forall c h ch ch',
+  ch_unacked ch' = ch_unacked ch -> ch_status ch' = ch_status ch -> ch_dtag ch <= ch_dtag ch' ->
+  (ch_consumers ch = [] -> ch_consumers ch' = []) -> chinvp c h ch -> chinvp c h ch'.
+Proof. intros. unfold chinvp in *. eapply chinv_consumers; eauto. Qed.
+Lemma chinvp_del : forall c h ch tag, chinvp c h ch -> chinvp c h (del_unacked ch tag).
+Proof. intros. unfold chinvp in *. apply chinv_del; auto. Qed.
+
+Definition emptyat (c0 h0 : N) (c h : N) (ch : channel) : Prop := c = c0 -> h = h0 -> ch_consumers ch = [].
+Lemma emptyat_keep c0 h0 : forall c h ch ch',
+  ch_unacked ch' = ch_unacked ch -> ch_status ch' = ch_status ch -> ch_dtag ch <= ch_dtag ch' ->
+  (ch_consumers ch = [] -> ch_consumers ch' = []) -> emptyat c0 h0 c h ch -> emptyat c0 h0 c h ch'.
+Proof. unfold emptyat. intros. auto. Qed.
+Lemma emptyat_del c0 h0 : forall c h ch tag, emptyat c0 h0 c h ch -> emptyat c0 h0 c h (del_unacked ch tag).
+Proof. unfold emptyat. intros. cbn. auto. Qed.
+
+Definition CI_wake := G_wake chinvp chinvp_keep.
+Definition CI_consumer_stop := G_consumer_stop chinvp chinvp_keep.
+Definition CI_dec_qos := G_dec_qos chinvp chinvp_keep.
+Definition CI_handle_reject := G_handle_reject chinvp chinvp_keep chinvp_del.
+Definition CI_handle_ack := G_handle_ack chinvp chinvp_keep chinvp_del.
+
+
+Ltac keep_upd :=
+  first [ apply allch_upd_chan; [intros ch0 Hch0; eapply chinvp_keep; [..|exact Hch0]; cbn;
+                                 first [reflexivity | apply N.le_refl | apply map_nil_of_nil | apply filter_nil_of_nil' | lia | auto]|]
+        | eapply allch_set_conn_qos; [eassumption|] ].
+Ltac sc := repeat (first [ assumption
+                         | match goal with |- allch _ (if ?b then _ else _) => destruct b end
+                         | match goal with |- allch _ (match ?x with _ => _ end) => destruct x eqn:? end
+                         | same_conns | keep_upd ]).
+
+(* a channel-record update that only changes fields other than unacked/dtag *)
+Lemma chinvp_set c h ch ch' : ch_unacked ch' = ch_unacked ch -> ch_dtag ch' = ch_dtag ch -> chinvp c h ch -> chinvp c h ch'.
+Proof. unfold chinvp, chinv. intros E1 E2 (A & B). rewrite E1, E2. auto. Qed.
+
+Lemma CI_channel_close cfg s c h : CI s -> CI (channel_close cfg s c h).
+Proof.
+  intros H. unfold channel_close. destruct (get_chan s c h) as [ch|] eqn:Ech; auto.
+  apply allch_upd_chan; [intros ch0 Hc0; eapply chinvp_set; [..|exact Hc0]; reflexivity|].
+  assert (H2 : CI (upd_chan (fold_left (fun s cm => consumer_stop s c h (c_tag cm)) (ch_consumers ch) s) c h
+                     (fun ch => ch <| ch_consumers := [] |>))).
+  { apply allch_upd_chan; [intros ch0 Hc0; eapply chinvp_set; [..|exact Hc0]; reflexivity|].
+    apply fold_left_preserves; auto. intros; apply CI_consumer_stop; auto. }
+  destruct (0 <? h); auto. apply CI_handle_reject; auto.
+Qed.
+
+Lemma CI_cancel_fold l : forall s evs, CI s ->
+  CI (fst (fold_left (fun acc x => let '(s, evs) := acc in let '(s', e) := consumer_cancel s x in (s', evs ++ e)) l (s, evs))).
+Proof.
+  induction l as [|[[c h] tag] t IH]; intros s evs H; simpl; auto.
+  apply IH. apply CI_consumer_stop; auto.
+Qed.
+
+Lemma CI_vhost_delete_queue b s qn iu ie : CI s -> CI (fst (fst (vhost_delete_queue b s qn iu ie))).
+Proof.
+  intros H. unfold vhost_delete_queue. destruct (get_queue s qn) as [qu|] eqn:Eq; auto.
+  destruct (_ || _).
+  - cbn [fst]. destruct b; [eapply allch_same_conns; [apply conns_set_queue|exact H]|exact H].
+  - pose proof (CI_cancel_fold (q_consumers qu) s [] H) as Hf.
+    destruct (fold_left _ (q_consumers qu) (s, [])) as [s1 e1]. cbn [fst] in *.
+    repeat (first [ assumption | match goal with |- allch _ (if ?b then _ else _) => destruct b end | same_conns ]).
+Qed.
+
+Lemma CI_store_windows cfg s c h tag ws : CI s -> CI (store_windows cfg s c h tag ws).
+Proof.
+  intros H. unfold store_windows. destruct ws as [|w1 [|w2 [|]]]; auto.
+  destruct (cfg_rabbit cfg); [sc|]. destruct (get_conn _ c) eqn:Ec; sc.
+Qed.
+
+Lemma fst_pair {A B} (p : A * B) a b : p = (a, b) -> a = fst p.
+Proof. intros ->. reflexivity. Qed.
+
+(* the delivery bookkeeping on channel (c,h): tag counter + unacked entry, written as in consumer_turn / MGet *)
+Lemma CI_deliver s c h (mk : N -> unacked) :
+  (forall d, u_tag (mk d) = d) -> CI s ->
+  CI (upd_chan (upd_chan s c h (fun ch => ch <| ch_dtag := match get_chan s c h with Some ch => ch_dtag ch + 1 | None => 0 end |>)) c h
+        (fun ch => ch <| ch_unacked ::= fun l => l ++ [mk (match get_chan s c h with Some ch => ch_dtag ch + 1 | None => 0 end)] |>)).
+Proof.
+  intros Hmk H. destruct (get_chan s c h) as [ch|] eqn:Ech.
+  - unfold upd_chan at 2. rewrite Ech.
+    unfold upd_chan. rewrite get_chan_set_chan. pose proof (get_chan_conn _ _ _ _ Ech). destruct (get_conn s c) eqn:Ecn; [|congruence].
+    rewrite !N.eqb_refl. cbn [andb].
+    apply allch_set_chan; [|apply allch_set_chan; auto].
+    + pose proof (chinv_deliver h ch (mk (ch_dtag ch + 1)) (Hmk _) (H _ _ _ Ech)) as Hd. exact Hd.
+    + pose proof (H _ _ _ Ech) as (A & B). unfold chinvp, chinv. cbn. split; auto. intros u Hu. specialize (B u Hu). lia.
+  - unfold upd_chan at 2. rewrite Ech. unfold upd_chan. rewrite Ech. exact H.
+Qed.
+
+Lemma CI_bump s c h d : (forall ch, get_chan s c h = Some ch -> ch_dtag ch <= d) -> CI s ->
+  CI (upd_chan s c h (fun ch => ch <| ch_dtag := d |>)).
+Proof.
+  intros Hd H. unfold upd_chan. destruct (get_chan s c h) as [ch|] eqn:E; auto.
+  apply allch_set_chan; auto. pose proof (H _ _ _ E) as (A & B). unfold chinvp, chinv. cbn. split; auto.
+  intros u Hu. specialize (B u Hu). specialize (Hd _ eq_refl). lia.
+Qed.
+
+Lemma CI_consumer_turn cfg fx s c h tag : CI s -> CI (fst (consumer_turn cfg fx s c h tag)).
+Proof.
+  intros H. unfold consumer_turn.
+  destruct (get_chan s c h) as [ch|] eqn:Ech; auto.
+  destruct (find_consumer ch tag) as [cm|] eqn:Efc; auto.
+  destruct (negb (c_token cm)); auto.
+  set (s0 := set_chan s c h _).
+  assert (H0 : CI s0).
+  { subst s0. apply allch_set_chan; auto. eapply chinvp_keep; [..|exact (H _ _ _ Ech)]; cbn; try reflexivity. apply map_nil_of_nil. }
+  clearbody s0.
+  destruct (c_status cm); auto.
+  all: destruct (get_queue s0 (c_queue cm)) as [qu|]; auto.
+  all: destruct (negb (q_active qu)); auto.
+  all: destruct (q_ready qu) as [|u rest]; auto.
+  all: match goal with |- context [if c_noack ?cm0 then (Some [], []) else ?r] => destruct (if c_noack cm0 then (Some [], []) else r) as [okr ws] end.
+  all: set (s1 := if c_noack cm then s0 else store_windows cfg s0 c h tag ws).
+  all: assert (H1 : CI s1) by (subst s1; destruct (c_noack cm); auto; apply CI_store_windows; auto).
+  all: clearbody s1.
+  all: destruct okr; cbn [fst]; auto.
+  all: match goal with |- context [wake_consumer ?st ?c0 ?h0 ?tag0] => destruct (wake_consumer st c0 h0 tag0) as [s9 b9] eqn:Ew;
+         apply fst_pair in Ew; cbn [fst]; subst s9; apply CI_wake end.
+  all: same_conns.
+  all: set (s3 := if c_noack cm then queue_ackmsg (upd_queue s1 (c_queue cm) _) (c_queue cm) u else upd_queue s1 (c_queue cm) _).
+  all: assert (H3 : CI s3) by (subst s3; destruct (c_noack cm); repeat same_conns; auto).
+  all: clearbody s3.
+  all: destruct (c_noack cm).
+  all: repeat (first [ assumption | same_conns | match goal with |- allch _ (if ?b then _ else _) => destruct b end ]).
+  all: first [ apply CI_bump; [intros ch0 Hg; rewrite Hg; lia|assumption]
+             | apply (CI_deliver s3 c h (fun d => {| u_tag := d; u_ctag := tag; u_queue := c_queue cm;
+                                             u_qid := qid_of (upd_chan s3 c h (fun ch => ch <| ch_dtag := d |>)) (c_queue cm); u_msg := u |})); auto ].
+Qed.
+
+Lemma CI_rr_scan n : forall cnt s qn, CI s -> CI (rr_scan n cnt s qn).
+Proof.
+  induction n as [|n IH]; intros cnt s qn H; simpl; auto.
+  destruct (get_queue s qn) as [qu|]; auto. destruct (negb (q_active qu)); auto.
+  set (s1 := set_queue s qn _). assert (H1 : CI s1) by (subst s1; same_conns; auto). clearbody s1.
+  destruct (nth_error _ _) as [[[c h] tag]|]; auto.
+  destruct (wake_consumer s1 c h tag) as [s2 b] eqn:Ew. apply fst_pair in Ew. subst s2.
+  destruct b; [apply CI_wake; auto|apply IH; apply CI_wake; auto].
+Qed.
+
+Lemma CI_queue_loop_turn s qn : CI s -> CI (queue_loop_turn s qn).
+Proof.
+  intros H. unfold queue_loop_turn. destruct (get_queue s qn) as [qu|]; auto. destruct (negb (q_call qu)); auto.
+  destruct (Nat.eqb _ 0); [same_conns; auto|]. apply CI_rr_scan. same_conns. auto.
+Qed.
+
+Lemma CI_add_confirm s c h t : CI s -> CI (add_confirm s c h t).
+Proof.
+  intros H. unfold add_confirm. destruct (get_chan s c h) as [ch|] eqn:E; auto. destruct (negb _); auto.
+  destruct (ch_status ch); auto; destruct t as [[[? ?] ?]|]; auto;
+    (apply allch_set_chan; auto; eapply chinvp_set; [..|exact (H _ _ _ E)]; reflexivity).
+Qed.
+
+Lemma CI_route_and_push fx s c h u : CI s -> CI (fst (route_and_push fx s c h u)).
+Proof.
+  intros H. unfold route_and_push. destruct (get_msg s u) as [m|]; auto.
+  destruct (alookup _ _ _) as [ex|]; cbn [fst]; [|apply CI_add_confirm; auto].
+  destruct (matched_queues _ _ _) as [|q1 qs]; cbn [fst]; [apply CI_add_confirm; auto|].
+  apply fold_left_preserves.
+  - intros s0 qn H0. assert (H1 : CI (queue_push s0 qn u)) by (same_conns; auto).
+    destruct (get_msg _ u); auto. destruct (_ && _)%bool; auto. apply CI_add_confirm; auto.
+  - destruct (_ && _)%bool; [same_conns|]; auto.
+Qed.
+
+Lemma CI_finish_publish fx s c h u : CI s -> CI (fst (finish_publish fx s c h u)).
+Proof.
+  intros H. unfold finish_publish. pose proof (CI_route_and_push fx s c h u H) as H1.
+  destruct (route_and_push fx s c h u) as [s1 e1]. cbn [fst] in *.
+  destruct (fx_clear_current fx); auto.
+  apply allch_upd_chan; auto.
+Qed.
+
+(* a record update of channel (c,h), known from get_chan, that keeps unacked and dtag *)
+Ltac set_keep Ech H := apply allch_set_chan; [eapply chinvp_set; [..|exact (H _ _ _ Ech)]; reflexivity|].
+
+Lemma CI_handle_method cfg fx s c h m : CI s -> CI (fst (fst (handle_method cfg fx s c h m))).
+Proof.
+  intros H. unfold handle_method.
+  destruct (get_chan s c h) as [ch|] eqn:Hch; [|exact H].
+  destruct m; unfold ok, refuse.
+  - (* MChannelOpen *)
+    destruct (ch_status ch); cbn [fst]; auto.
+    + set_keep Hch H. auto.
+    + set_keep Hch H. auto.
+    + (* closed: reset *)
+      apply allch_set_chan; auto. destruct (fx_reopen_resets fx).
+      * unfold chinvp, chinv. cbn. split; [constructor|intros u []].
+      * eapply chinvp_set; [..|exact (H _ _ _ Hch)]; reflexivity.
+  - (* MChannelClose *) cbn [fst]. apply CI_channel_close; auto.
+  - (* MChannelCloseOk *) cbn [fst]. destruct (fx_closeok_releases fx); [apply CI_channel_close; auto|set_keep Hch H; auto].
+  - (* MChannelFlow *)
+    cbn [fst]. destruct (Bool.eqb _ _); auto. destruct a; (set_keep Hch H; auto).
+  - (* MExDeclare *)
+    destruct (extype_of type); [|exact H].
+    repeat match goal with |- context [if ?b then _ else _] => destruct b end; cbn [fst]; auto.
+    all: repeat match goal with |- context [match ?x with _ => _ end] => destruct x end; cbn [fst]; auto.
+    all: try (same_conns; auto).
+  - (* MExDelete *) destruct (fx_not_impl fx); exact H.
+  - (* MQDeclare *)
+    destruct (seqb name ""); [exact H|].
+    destruct (queue_found s name) as [qu|].
+    + repeat match goal with |- context [if ?b then _ else _] => destruct b end; cbn [fst]; auto.
+    + destruct passive; [destruct nowait; exact H|]. cbn [fst]. repeat same_conns. auto.
+  - (* MQBind *)
+    destruct (alookup _ _ _); [|exact H]. destruct (seqb ex ""); [exact H|].
+    destruct (queue_found s q); [|exact H]. destruct (locked _ _); [exact H|]. cbn [fst]. same_conns. auto.
+  - (* MQUnbind *)
+    destruct (alookup _ _ _); [|exact H]. destruct (queue_found s q); [|exact H]. destruct (locked _ _); [exact H|]. cbn [fst]. same_conns. auto.
+  - (* MQPurge *)
+    destruct (queue_found s q) as [qu|]; [|exact H]. destruct (locked _ _); [exact H|]. cbn [fst].
+    repeat (first [assumption | same_conns | match goal with |- allch _ (if ?b then _ else _) => destruct b end]).
+  - (* MQDelete *)
+    destruct (queue_found s q); [|exact H]. destruct (locked _ _); [exact H|].
+    pose proof (CI_vhost_delete_queue (negb (fx_delete_checks_first fx)) s q ifunused ifempty H) as Hd.
+    destruct (vhost_delete_queue _ s q ifunused ifempty) as [[s1 e1] r1]. cbn [fst] in *.
+    destruct r1; exact Hd.
+  - (* MQos *)
+    cbn [fst]. destruct (cfg_rabbit cfg); [destruct glob; (set_keep Hch H; auto)|].
+    destruct glob; [|set_keep Hch H; auto]. destruct (get_conn s c) eqn:Ec; auto. eapply allch_set_conn_qos; eauto.
+  - (* MPublish *)
+    destruct imm; [exact H|]. destruct (alookup _ _ _); [|exact H].
+    destruct (ch_confirm ch); cbn [fst].
+    + apply allch_set_chan; [eapply chinvp_set; [..|exact (H _ _ _ Hch)]; reflexivity|]. repeat same_conns. auto.
+    + apply allch_set_chan; [eapply chinvp_set; [..|exact (H _ _ _ Hch)]; reflexivity|]. repeat same_conns. auto.
+  - (* MConsume *)
+    destruct (queue_found s q) as [qu|]; [|exact H].
+    destruct (fx_excl_owner fx && locked qu c); [exact H|].
+    destruct (find_consumer ch tag); [exact H|].
+    destruct (_ && _)%bool; cbn [fst].
+    + same_conns. auto.
+    + apply allch_set_chan; [eapply chinvp_set; [..|exact (H _ _ _ Hch)]; reflexivity|]. repeat same_conns. auto.
+  - (* MCancel *)
+    destruct (find_consumer ch tag); [|exact H]. cbn [fst].
+    apply allch_upd_chan; [intros ch0 Hc0; eapply chinvp_set; [..|exact Hc0]; reflexivity|]. apply CI_consumer_stop. exact H.
+  - (* MGet *)
+    destruct (queue_found s q) as [qu|]; [|exact H].
+    destruct (fx_excl_owner fx && locked qu c); [exact H|].
+    destruct (q_ready qu) as [|u rest]; [exact H|].
+    match goal with |- context [if noack then (Some [], []) else ?r] => destruct (if noack then (Some [], []) else r) as [okr ws] end.
+    set (s1 := match ws with [w1; w2] => _ | _ => s end).
+    assert (H1 : CI s1).
+    { subst s1. destruct ws as [|w1 [|w2 [|]]]; auto.
+      destruct (get_conn _ c) eqn:Ec.
+      - eapply allch_set_conn_qos; eauto. set_keep Hch H. auto.
+      - set_keep Hch H. auto. }
+    clearbody s1.
+    destruct okr; cbn [fst]; [|exact H1].
+    same_conns.
+    set (s3 := upd_queue s1 q _). assert (H3 : CI s3) by (subst s3; same_conns; auto). clearbody s3.
+    destruct noack.
+    all: repeat (first [ assumption | same_conns | match goal with |- allch _ (if ?b then _ else _) => destruct b end ]).
+    all: first [ apply CI_bump; [intros ch0 Hg; rewrite Hg; lia|assumption]
+               | apply (CI_deliver s3 c h (fun d => {| u_tag := d; u_ctag := ""%string; u_queue := q;
+                                               u_qid := qid_of (upd_chan s3 c h (fun ch => ch <| ch_dtag := d |>)) q; u_msg := u |})); auto ].
+  - (* MAck *)
+    pose proof (CI_handle_ack cfg s c h tag mult H) as Ha.
+    destruct (handle_ack cfg s c h tag mult) as [s1 e1]. exact Ha.
+  - (* MNack *)
+    pose proof (CI_handle_reject cfg s c h tag mult requeue 60 120 H) as Ha.
+    destruct (handle_reject cfg s c h tag mult requeue 60 120) as [s1 e1]. exact Ha.
+  - (* MReject *)
+    pose proof (CI_handle_reject cfg s c h tag false requeue 60 90 H) as Ha.
+    destruct (handle_reject cfg s c h tag false requeue 60 90) as [s1 e1]. exact Ha.
+  - (* MRecover *) exact H.
+  - (* MConfirmSelect *) cbn [fst]. set_keep Hch H. auto.
+  - (* MTxSelect *) destruct (fx_not_impl fx); exact H.
+  - (* MConnClose *) exact H.
+  - (* MConnCloseOk *) exact H.
+Qed.
+
+Lemma CI_delete_fold b l : forall s evs, CI s ->
+  CI (fst (fold_left (fun acc qn => let '(s, evs) := acc in
+                                    let '(s', e, _) := vhost_delete_queue b s qn false false in (s', evs ++ e)) l (s, evs))).
+Proof.
+  induction l as [|x t IH]; intros s evs H; simpl; auto.
+  pose proof (CI_vhost_delete_queue b s x false false H) as Hd.
+  destruct (vhost_delete_queue b s x false false) as [[s1 e1] r1]. cbn [fst] in Hd. apply IH. exact Hd.
+Qed.
+
+Lemma CI_conn_close cfg fx s c : CI s -> CI (fst (conn_close cfg fx s c)).
+Proof.
+  intros H. unfold conn_close. destruct (get_conn s c) as [cn|]; [|exact H].
+  set (s1 := fold_left _ _ s).
+  assert (H1 : CI s1) by (subst s1; apply fold_left_preserves; auto; intros; apply CI_channel_close; auto).
+  clearbody s1.
+  pose proof (CI_delete_fold (negb (fx_delete_checks_first fx))
+                (map fst (filter (fun kv => q_excl (snd kv) && (q_owner (snd kv) =? c)) (queues s1))) s1 [] H1) as Hd.
+  destruct (fold_left _ _ (s1, [])) as [s2 e2]. cbn [fst] in *. apply allch_del_conn. exact Hd.
+Qed.
+
+Lemma CI_send_error s c h e : CI s -> CI (fst (send_error s c h e)).
+Proof. intros H. destruct e; cbn [send_error fst]; auto. apply allch_upd_chan; auto. Qed.
+
+Lemma CI_apply_err s c h r : CI (fst (fst r)) -> CI (fst (apply_err s c h r)).
+Proof.
+  destruct r as [[s1 e1] [e|]]; cbn [fst]; auto.
+  intros H. unfold apply_err. pose proof (CI_send_error s1 c h e H) as Hs.
+  destruct (send_error s1 c h e) as [s2 e2]. exact Hs.
+Qed.
+
+Lemma chinv_channel0 h : chinv h channel0.
+Proof. unfold chinv, channel0. cbn. split; [constructor|intros u []]. Qed.
+
+Lemma get_chan_ensure s c h c' h' ch' :
+  get_chan (ensure_chan s c h) c' h' = Some ch' -> get_chan s c' h' = Some ch' \/ ch' = channel0.
+Proof.
+  unfold ensure_chan. destruct (get_conn s c) as [cn|] eqn:Ec; auto.
+  destruct (alookup N.eqb h (cn_chans cn)) eqn:Eh; auto.
+  unfold get_chan, get_conn in *. cbn. rewrite (alookup_aset N.eqb Neqb_spec).
+  destruct (c' =? c) eqn:E1.
+  - apply N.eqb_eq in E1. subst. rewrite Ec. cbn. rewrite (alookup_aset N.eqb Neqb_spec).
+    destruct (h' =? h); intros Hg; [inversion Hg; auto|auto].
+  - auto.
+Qed.
+
+Lemma CI_ensure_chan s c h : CI s -> CI (ensure_chan s c h).
+Proof.
+  intros H c' h' ch' Hg. apply get_chan_ensure in Hg. destruct Hg as [Hg|Hg]; [apply H; auto|subst; apply chinv_channel0].
+Qed.
+
+Theorem CI_step cfg fx s l : CI s -> CI (fst (step cfg fx s l)).
+Proof.
+  intros H. destruct l; cbn [step].
+  - (* LConnect *)
+    destruct (get_conn s c) eqn:Ec; cbn [fst]; auto.
+    intros c' h' ch' Hg. unfold get_chan, get_conn in Hg. cbn in Hg. rewrite (alookup_aset N.eqb Neqb_spec) in Hg.
+    destruct (c' =? c) eqn:E1.
+    + cbn in Hg. destruct (h' =? 0); inversion Hg; subst. apply chinv_channel0.
+    + apply H. unfold get_chan, get_conn. exact Hg.
+  - (* LMethod *)
+    destruct (get_conn s c); [|exact H].
+    assert (H0 : CI (ensure_chan s c h)) by (apply CI_ensure_chan; auto).
+    destruct m.
+    all: try (repeat match goal with |- context [if ?b then _ else _] => destruct b end;
+              first [ exact H0 | apply CI_apply_err; first [ apply CI_handle_method; auto | exact H0 ] ]).
+    + destruct (fx_stage fx && negb (h =? 0)); [apply CI_apply_err; exact H0|].
+      pose proof (CI_conn_close cfg fx _ c H0) as Hc.
+      destruct (conn_close cfg fx (ensure_chan s c h) c) as [s1 e1]. exact Hc.
+    + destruct (fx_stage fx && negb (h =? 0)); [apply CI_apply_err; exact H0|].
+      apply CI_conn_close; auto.
+  - (* LHeader *)
+    destruct (get_conn s c); [|exact H].
+    assert (H0 : CI (ensure_chan s c h)) by (apply CI_ensure_chan; auto).
+    destruct (get_chan _ c h) as [ch|]; [|exact H0].
+    destruct (_ && _)%bool; [exact H0|].
+    destruct (ch_cur ch) as [u|]; [|apply CI_apply_err; exact H0].
+    destruct (get_msg _ u) as [m|]; [|exact H0].
+    destruct (m_has_header m); [apply CI_apply_err; exact H0|].
+    destruct (_ && _)%bool; [apply CI_finish_publish|]; same_conns; auto.
+  - (* LBody *)
+    destruct (get_conn s c); [|exact H].
+    assert (H0 : CI (ensure_chan s c h)) by (apply CI_ensure_chan; auto).
+    destruct (get_chan _ c h) as [ch|]; [|exact H0].
+    destruct (_ && _)%bool; [exact H0|].
+    destruct (ch_cur ch) as [u|]; [|apply CI_apply_err; exact H0].
+    destruct (get_msg _ u) as [m|]; [|exact H0].
+    destruct (negb (m_has_header m)); [apply CI_apply_err; exact H0|].
+    destruct (_ <? _); [|apply CI_finish_publish]; same_conns; auto.
+  - (* LConsumerTurn *) apply CI_consumer_turn; auto.
+  - (* LQueueLoop *) cbn [fst]. apply CI_queue_loop_turn; auto.
+  - (* LAutoDelete *)
+    destruct (autodel s) as [|qn rest]; [exact H|].
+    assert (H0 : CI (s <| autodel := rest |>)) by (same_conns; auto).
+    pose proof (CI_vhost_delete_queue (negb (fx_delete_checks_first fx)) _ qn false false H0) as Hd.
+    destruct (vhost_delete_queue _ (s <| autodel := rest |>) qn false false) as [[s1 e1] r1]. exact Hd.
+  - (* LPersistTick *)
+    match goal with |- CI (fst (fold_left ?f ?l0 ?a)) =>
+      assert (Hg : forall ks acc, CI (fst acc) -> CI (fst (fold_left f ks acc))) end.
+    { induction ks as [|k t IH]; intros acc Ha; simpl; auto. apply IH. destruct acc as [s0 e0]. cbn [fst] in *.
+      destruct (get_msg s0 (fst k)) as [m|]; auto. destruct (m_conf m); auto. cbn [fst]. repeat same_conns. auto. }
+    apply Hg. cbn [fst]. repeat same_conns. auto.
+  - (* LRelay *)
+    destruct (relay s) as [|u rest]; [exact H|].
+    assert (H0 : CI (s <| relay := rest |>)) by (same_conns; auto).
+    destruct (get_msg _ u) as [m|]; cbn [fst]; auto.
+    destruct (_ =? _)%Z; cbn [fst]; auto. destruct (m_conf m) as [[[? ?] ?]|]; cbn [fst]; auto. apply CI_add_confirm; auto.
+  - (* LConfirmTick *)
+    destruct (get_chan s c h) as [ch|] eqn:Ech; [|exact H]. destruct (negb _); [exact H|].
+    destruct (ch_status ch); cbn [fst]; (set_keep Ech H; auto).
+  - (* LSocketLoss *)
+    pose proof (CI_conn_close cfg fx s c H) as Hc.
+    destruct (conn_close cfg fx s c) as [s1 e1]. exact Hc.
+Qed.
+
+Lemma CI_init cfg : CI (init cfg).
+Proof. intros c h ch Hg. unfold get_chan, get_conn in Hg. simpl in Hg. discriminate. Qed.
+
+Theorem CI_run cfg fx ls : forall s, CI s -> CI (fst (run cfg fx s ls)).
+Proof.
+  induction ls as [|l t IH]; intros s H; simpl; auto.
+  pose proof (CI_step cfg fx s l H) as H1.
+  destruct (step cfg fx s l) as [s1 e1]. cbn [fst] in H1.
+  specialize (IH s1 H1). destruct (run cfg fx s1 t) as [s2 e2]. exact IH.
+Qed.
+
+(* every reachable state: distinct tags, none above the counter *)
+Theorem tags_invariant_reachable cfg fx ls c h ch :
+  get_chan (fst (run cfg fx (init cfg) ls)) c h = Some ch ->
+  NoDup (map u_tag (ch_unacked ch)) /\ (forall u, In u (ch_unacked ch) -> u_tag u <= ch_dtag ch).
+Proof. intros Hg. exact (CI_run cfg fx ls (init cfg) (CI_init cfg) c h ch Hg). Qed.
